@@ -10,6 +10,21 @@ CLAIMED = {
    text="Every operator method of the real value package is executed on every ordered pair of a boundary-value pool (exhaustive) and on seeded random tuples; each result is compared with an independent model of the README tables and with reference-free algebraic laws (symmetry, negation, relational consistency, slice/concat length laws). Held-on-what-was-observed; the pool sweeps are complete, the random part is a sample.",
    note="Trusts the harness model (harness/val) as the statement of the README tables; unspecified cells only demand 'documented error or right-shaped value, no crash'. Go's IEEE-754 float semantics trusted.",
    design="6/C11"),
+ "C15": dict(
+   technique="runtime monitoring: exhaustive round-trip assertion over the operand-field space + OR-composition and function-layout sweeps (+ limit-crossing sessions)",
+   text="The real EncodeSrc/New/decoders are executed on every slot x kind x address in -70000..70000 (complete), every opcode with composed operands, and the function-value layout lattice; each accepted encode must decode to exactly its inputs with all other fields zero, the only alternative being a refusal.",
+   note="A panic of EncodeSrc counts as refusal at API level. Session-level limit crossing is covered by the history family once the session runner applies.",
+   design="6/C15"),
+ "C14": dict(
+   technique="runtime monitoring: trace-law checker over the real lexer's token stream + reference scanner + metamorphic relayout",
+   text="The real lexer is run on seeded alphabet-weighted strings, corpus programs and mutations; every accepted stream is checked against the span/text/gap/longest-run/EOL/terminator laws, a reference scanner written from the README token table, and a relaid-out variant of the same text.",
+   note="String token text compared modulo the pinned \\n expansion; lexer hangs/aborts are C06's subject and are counted inconclusive here.",
+   design="6/C14"),
+ "C06": dict(
+   technique="runtime monitoring: invariant hooks (lexer/TLexer progress bounds), span and error-display assertions, state-unchanged assertion around processInput",
+   text="parser.Parse is run on prefixes of all corpus programs, random bytes, token soup, mutations, nesting to depth 5000 and 10^5-character literals under logical progress bounds; panics, bound trips, out-of-input spans, failing error displays and any execution of an erroneous input are violations.",
+   note="Termination is decided as bounded progress (>=100x slack over measured maxima, reported in the evidence); nesting deeper than 5000 is out of reach (Go stack).",
+   design="6/C06"),
 }
 
 ALL = ["C%02d" % i for i in range(1, 20)]
